@@ -1,5 +1,6 @@
 import DilithiumVerif.Props.C01
 import DilithiumVerif.Lemmas.EndToEnd
+import DilithiumVerif.Lemmas.SignFips
 /-
   C06 — Emitted signatures respect the rejection bounds that protect the secret key.
   Part 1: an emitted signature is the packing of an iteration for which none of the four rejection tests fired,
@@ -118,5 +119,21 @@ theorem emitted_signature_respects_bounds (p : Params) (hp : p ∈ allParams) (s
       SignFacts p mat s1 s2 t0 mu sig ct cp z h w1 a0 ∧
       SignSecret p mat s1 s2 t0 rp (κ : Int) cp z w1 a0 y w w0 cs2 r0 ct0 :=
   emitted_signature_facts p hp seed tape pk sk tape' hk fuel msg randomized tape2 sig tape3 hs
+
+open DV.SignFips DV.SignSpec DV.XofSpec DV.Complete in
+/-- **in the specification's terms**: every emitted signature is the encoding of an iteration that the specification's
+    Sign accepts (`SignSpec.Accepts`: ‖z‖∞ < γ1 − β, ‖LowBits(w − c·s2)‖∞ < γ2 − β, ‖c·t0‖∞ < γ2, at most ω hints = MakeHint(−c·t0,
+    w − c·s2 + c·t0), c̃ = H(μ ‖ w1Encode(HighBits(A·y))), y the expanded mask) — the conditions under which the signature
+    distribution is independent of the secret key -/
+theorem emitted_signature_is_spec_accepted (p : Params) (hp : p ∈ allParams) (seed : Option (List Nat)) (tape : Tape) (pk sk : List Nat) (tape' : Tape)
+    (hk : keypair p seed tape = .ok (pk, sk, tape'))
+    (fuel : Nat) (msg : List Nat) (randomized : Bool) (tape2 : Tape) (sig : List Nat) (tape3 : Tape)
+    (hs : signature p fuel msg sk randomized tape2 = .ok (some sig, tape3)) :
+    ∃ (rho tr key : List Nat) (s1 s2 t1 t0 : PolyVec) (mat : List PolyVec) (r : Option (List Nat)) (κ : Nat),
+      unpack_sk p sk = .ok (rho, tr, key, t0, s1, s2) ∧ matrix_expand p FUEL rho = .ok mat ∧ KeyFacts p mat s1 s2 t1 t0 ∧
+      Accepts p mat s1 s2 t0 (SHAKE256 (tr ++ msg) CRHBYTES) (rhoPrimeSpec p key (SHAKE256 (tr ++ msg) CRHBYTES) r) κ sig := by
+  obtain ⟨rho, tr, key, s1, s2, t1, t0, mat, r, κ, h1, _, h3, h4, _, _, _, h8, _⟩ :=
+    signature_is_spec p hp seed tape pk sk tape' hk fuel msg randomized tape2 sig tape3 hs
+  exact ⟨rho, tr, key, s1, s2, t1, t0, mat, r, κ, h1, h3, h4, h8.1⟩
 
 end DV.C06
